@@ -170,6 +170,29 @@ theorem complete_unless_told (env : Env) (hfix : env.cfg.Fixed) (p : Plan) (hwf 
   · have : (embedded env p f size now).stopped = true := hst
     rw [this] at hns; cases hns
 
+/-! ## Panics in per-row processing
+
+A failure raised as a PANIC (goexpr SUBSTR/SPLIT/LEN on a dimension value of an unexpected type
+in WHERE / GROUP BY, a consumer callback) is the reply `fail .panic` (see `Err.panic`): it goes
+up through every operator unchanged and meets table.go `safeOnValue` (`recoverStep`) before the
+shared scan. -/
+
+/-- the recover boundary as it stands (deferred closure assigns the named results) hands
+    everything that comes up to the scan unchanged: it is the identity operator -/
+theorem recover_boundary_reports : StepOK (recoverStep true) (fun _ => True) (fun _ r => [r]) unitNx :=
+  recoverStep_ok
+
+/-- **panic_is_reported.**  For every well-formed plan: if the caller's callback panics at its
+    call k and the caller is NOT told (nil error, statistics not partial), then that call never
+    happened — the callback was called at most k times (calls 0 … k-1).  A panic that happened
+    is always reported. -/
+theorem panic_is_reported (env : Env) (hfix : env.cfg.Fixed) (p : Plan) (hwf : p.wf) (k : Nat)
+    (size : Row → Nat) (now : Nat) (ht : (embedded env p (.panicAt k) size now).told = false) :
+    (embedded env p (.panicAt k) size now).calls ≤ k := by
+  have ht' : (iterate env p (userSink (.panicAt k) size) {} now).told = false := ht
+  obtain ⟨l, _, m, rep, hf, he, _⟩ := inv_of_wf env hfix p hwf (userSink (.panicAt k) size) {} now ht'
+  exact panic_fed k size _ _ _ _ hf he (Nat.zero_le k)
+
 /-- a table query reports through the error: its statistics say 0 of 1 exactly when there is one -/
 theorem table_stats_follow_error (env : Env) (t : Table) (f : UFault) (size : Row → Nat) (now : Nat) :
     (embedded env (.table t) f size now).stats =
@@ -490,12 +513,50 @@ theorem remote_loop_exits_report :
     Facts.remoteLoopExits.all (fun e => e.setsErr || e.afterEnd) = true ∧
     Facts.remoteLoopExits.any (fun e => e.afterEnd) = true := by decide
 
+/-- regenerated facts: every recover boundary of the query path's packages hands the recovered
+    panic on — by assigning a NAMED error result of its function ("named"), by sending it on the
+    result channel ("send"), or it stands in a function without an error result ("void": logs
+    only; ingestion and follow paths).  A boundary whose deferred closure assigns only local
+    variables of a function with an (unnamed) error result is "lost" and breaks this.  The five
+    boundaries of the query path are there, each with its way of reporting. -/
+theorem recover_boundaries_report :
+    Facts.recoverBoundaries.all (fun b => b.reach != "lost") = true ∧
+    Facts.recoverBoundaries.any (fun b => b.file == "table.go" && b.func == "safeOnValue" && b.reach == "named" && b.assigns.contains "err") = true ∧
+    Facts.recoverBoundaries.any (fun b => b.file == "planner/subquery.go" && b.reach == "send") = true ∧
+    Facts.recoverBoundaries.any (fun b => b.file == "web/query.go" && b.func == "doQuery" && b.reach == "named") = true ∧
+    Facts.recoverBoundaries.any (fun b => b.file == "rpc/server/rpc_server.go" && b.func == "Query" && b.reach == "named") = true ∧
+    Facts.recoverBoundaries.any (fun b => b.file == "cluster_query.go" && b.func == "queryForRemote" && b.reach == "named") = true := by decide
+
 /-! ## Pre-fix witnesses (the record of the findings) -/
 
 def r (k : Nat) : Row := { key := k, ts := 0, vals := [1] }
 def noSize : Row → Nat := fun _ => 0
 def cfgWith (d3 d15 d4 subq subqStats : Bool) : Cfg :=
   { d3 := d3, d15 := d15, d4 := d4, subq := subq, subqStats := subqStats, coalesce := .abortAll }  -- the code the defects were found in
+
+/-- the same for a panic raised by the query's own row processing (`incl` = the WHERE clause or
+    a GROUP BY expression evaluated on the row): an untold result is a complete one, so no row
+    whose evaluation panics was reached — `told_when_incomplete` for `UFault.none` covers it;
+    here the concrete shape: a panic on the third of four rows -/
+theorem panic_in_where_reported :
+    let t : Table := { file := [(r 0, true), (r 1, true), (r 2, true), (r 3, true)], mem := [], includeMem := true, oomAt := none, co := none }
+    let o := embedded ⟨Cfg.fixed, none⟩ (.filter (fun x => if x.key == 2 then .err .panic else .keep x) (.table t)) .none noSize 0
+    o.rows = [r 0, r 1] ∧ o.err = some .panic ∧ o.stats = some ⟨1, 0, []⟩ := by decide
+
+/-- the boundary whose deferred closure assigns LOCAL variables (unnamed results): the function
+    returns `(false, nil)`, the scan drops the query as if it had asked to stop — 2 of 4 rows,
+    nil error, statistics 1 of 1: a truncated result presented as complete -/
+theorem recover_lost_witness :
+    let t : Table := { file := [(r 0, true), (r 1, true), (r 2, true), (r 3, true)], mem := [], includeMem := true, oomAt := none, co := none }
+    let o := embedded ⟨{ Cfg.fixed with recover := false }, none⟩ (.table t) (.panicAt 2) noSize 0
+    o.rows = [r 0, r 1] ∧ o.err = none ∧ o.stats = some ⟨1, 1, []⟩ ∧ o.stopped = false ∧ o.told = false ∧
+      o.calls = 3 := by decide
+
+/-- the same data and fault with the boundary as it stands: told -/
+theorem recover_fixed_witness :
+    let t : Table := { file := [(r 0, true), (r 1, true), (r 2, true), (r 3, true)], mem := [], includeMem := true, oomAt := none, co := none }
+    let o := embedded ⟨Cfg.fixed, none⟩ (.table t) (.panicAt 2) noSize 0
+    o.rows = [r 0, r 1] ∧ o.err = some .panic ∧ o.stats = some ⟨1, 0, []⟩ ∧ o.calls = 3 := by decide
 
 /-- D3: a consumer error in the memstore part vanishes: 3 of 4 rows, nil error, statistics 1/1 -/
 theorem d3_witness :
